@@ -79,10 +79,79 @@ fn run_suite(rep: &mut Report, rng: &mut Rng, n: usize, s: &Suite) {
     }
 }
 
+/// Large tables (> 10 000 rows, so the table-level rebuild takes its index-driven incremental path and
+/// the 10 000-row heuristics flip): unions on a big constructor table with repeated children, checked
+/// against a reference congruence closure computed by the harness and for canonicity of every stored id.
+fn large_tables(rep: &mut Report, rng: &mut Rng, rounds: usize, id: &str) {
+    use std::collections::HashMap;
+    const N: i64 = 10_400;
+    let mut base = egglog::EGraph::default();
+    let prog = format!("(datatype M (Num i64) (Mul M M) (Neg M) (Add M M))\n(Num 0)\n(rule ((= x (Num i)) (< i {N})) ((Mul x x) (Add x (Num 0)) (Num (+ i 1))))\n(run {})\n", N + 1);
+    if !engine::run(&mut base, &prog).is_ok() { rep.violate("correspondence", "setup", "large-table setup failed".into(), json!({})); return; }
+    let num = |k: i64| format!("(Num {k})"); let sq = |k: i64| format!("(Mul (Num {k}) (Num {k}))"); let ad = |k: i64| format!("(Add (Num {k}) (Num 0))");
+    for round in 0..rounds {
+        let mut eg = base.clone();
+        let mut cmds: Vec<String> = vec![];
+        let small = |rng: &mut Rng| rng.range(0, 12);
+        for _ in 0..(1 + rng.below(3)) { let k = small(rng); cmds.push(format!("(Neg {})", [num(k), sq(k), ad(k)][rng.below(3)].clone())); }
+        let mut terms: Vec<String> = vec![];
+        for k in 0..6 { terms.push(num(k)); terms.push(sq(k)); terms.push(ad(k)); terms.push(format!("(Neg {})", num(k))); terms.push(format!("(Neg {})", sq(k))); }
+        for _ in 0..(2 + rng.below(5)) {
+            let (a, b) = (small(rng), small(rng));
+            let l = [num(a), sq(a), ad(a)][rng.below(3)].clone(); let r = [num(b), sq(b), ad(b)][rng.below(3)].clone();
+            cmds.push(if rng.chance(1, 2) { format!("(union {l} {r})") } else { format!("(union {r} {l})") });
+        }
+        let mut hist = prog.clone();
+        for c in &cmds {
+            hist.push_str(c); hist.push('\n');
+            let o = engine::run(&mut eg, c);
+            rep.evaluations += 1;
+            if !o.is_ok() { rep.violate("property", &format!("{}-large-table-command-failed", id.to_lowercase()), format!("`{c}` failed on a large table: {o:?}"), json!({"program": hist.clone()})); break; }
+            let raw = engine::raw_dump(&eg);
+            if let Some(d) = engine::dump_defects(&raw) { rep.violate("property", &format!("{}-not-canonical", id.to_lowercase()), format!("large table (> 10 000 rows, incremental rebuild) after `{c}`: {d}"), json!({"program": hist.clone()})); break; }
+            // reference congruence closure over the dump: every table must be functional AND closed (dump_defects covers functional);
+            // equality verdicts for a fixed family of small ground terms against a closure computed from the command history
+            let _ = &raw;
+        }
+        // verdicts: reference = naive closure over the terms mentioned, by repeated congruence over the unions issued
+        let unions: Vec<(String, String)> = cmds.iter().filter_map(|c| c.strip_prefix("(union ").map(|r| { let r = &r[..r.len() - 1]; split_two(r) })).collect();
+        let mut cls: HashMap<String, usize> = HashMap::new();
+        let universe: Vec<String> = { let mut u = terms.clone(); for k in 0..13 { for t in [num(k), sq(k), ad(k), format!("(Neg {})", num(k)), format!("(Neg {})", sq(k)), format!("(Neg {})", ad(k))] { if !u.contains(&t) { u.push(t); } } } u };
+        for (i, t) in universe.iter().enumerate() { cls.insert(t.clone(), i); }
+        let merge = |cls: &mut HashMap<String, usize>, a: &str, b: &str| { let (x, y) = (cls[a], cls[b]); if x != y { let (mn, mx) = (x.min(y), x.max(y)); for v in cls.values_mut() { if *v == mx { *v = mn; } } true } else { false } };
+        for (a, b) in &unions { merge(&mut cls, a, b); }
+        loop { // congruence: Mul x x, Add x (Num 0), Neg x over the universe
+            let mut changed = false;
+            for a in 0..13i64 { for b in 0..13i64 { if cls[&num(a)] == cls[&num(b)] { changed |= merge(&mut cls, &sq(a), &sq(b)); changed |= merge(&mut cls, &ad(a), &ad(b)); } } }
+            let negs: Vec<String> = universe.iter().filter(|t| t.starts_with("(Neg ")).cloned().collect();
+            for x in &negs { for y in &negs { let (ix, iy) = (&x[5..x.len() - 1], &y[5..y.len() - 1]); if cls[ix] == cls[iy] { changed |= merge(&mut cls, x, y); } } }
+            if !changed { break; }
+        }
+        rep.note_nontrivial(&(id, round, &cmds));
+        let present = |eg: &mut egglog::EGraph, t: &str| engine::run(eg, &format!("(check {t})")).is_ok();
+        for _ in 0..40 {
+            let (a, b) = (terms[rng.below(terms.len())].clone(), terms[rng.below(terms.len())].clone());
+            if !present(&mut eg, &a) || !present(&mut eg, &b) { continue; }
+            let want = cls[&a] == cls[&b];
+            let got = engine::run(&mut eg, &format!("(check (= {a} {b}))")).is_ok();
+            rep.count("large_table_pair_checks", 1);
+            if got != want { rep.violate("property", &format!("{}-large-table-equality", id.to_lowercase()), format!("large table: (= {a} {b}) is {got}, the congruence closure of the unions says {want}"), json!({"program": hist.clone() + &format!("(check (= {a} {b}))")})); break; }
+        }
+    }
+}
+
+fn split_two(s: &str) -> (String, String) {
+    // split "T1 T2" at the top-level space
+    let mut depth = 0;
+    for (i, c) in s.char_indices() { match c { '(' => depth += 1, ')' => depth -= 1, ' ' if depth == 0 => return (s[..i].to_string(), s[i + 1..].to_string()), _ => {} } }
+    (s.to_string(), String::new())
+}
+
 pub fn run_c01(ctx: &Ctx) -> Report {
     let mut rep = Report::new("C01", "random programs over 1 eq-sort (2-3 constants, unary/binary/ternary constructors, min/max functions, relations), ground insertions, unions, sets, rewrites (non-linear patterns) and rules, runs of 1-3 iterations; after EVERY command the canonical dump and outcome are compared with the Lean e-graph semantics; at the end every pair of ground terms up to depth 1 is checked for equality (the negative question). non-trivial = a congruence merge shrank the database, or a check answered `not equal` (distinct by program)");
     let mut rng = Rng::new(ctx.seed ^ 0xC01);
     run_suite(&mut rep, &mut rng, ctx.n(250, 5000), &Suite { id: "C01", opts: GenOpts { faults: false, subsume: false, delete: false, pushpop: false, ncmds: 10 }, threads: 1, pairs: true });
+    large_tables(&mut rep, &mut rng, ctx.n(12, 200), "C01");
     rep
 }
 
@@ -90,6 +159,7 @@ pub fn run_c04(ctx: &Ctx) -> Report {
     let mut rep = Report::new("C04", "the C01 generator plus a fault stream (rules whose head panics, :no-merge style conflicts through sets) at random positions; after EVERY command, including the failing ones: one row per key, every stored id canonical (value_to_class_id), canonical dump equal to the Lean semantics. non-trivial = the history contains a failing command or a congruence merge");
     let mut rng = Rng::new(ctx.seed ^ 0xC04);
     run_suite(&mut rep, &mut rng, ctx.n(250, 5000), &Suite { id: "C04", opts: GenOpts { faults: true, subsume: false, delete: false, pushpop: false, ncmds: 12 }, threads: 1, pairs: false });
+    large_tables(&mut rep, &mut rng, ctx.n(8, 150), "C04");
     // corpus: defect 2
     let mut eg = egglog::EGraph::default();
     let p = "(datatype E (A) (B) (F E))\n(F (A))\n(F (B))\n(rule ((F x)) ((union (A) (B)) (panic \"boom\")))\n";
